@@ -1234,6 +1234,12 @@ func replay(c *vf.Ctx) {
 	if err := c.LoadReplay(&probe); err == nil && probe.Part == "conc" {
 		concReplay(c, &probe)
 		return
+	} else if err == nil && probe.Part == "realms" {
+		var rr realmRec
+		if c.LoadReplay(&rr) == nil {
+			realmsReplay(c, &rr)
+		}
+		return
 	}
 	var rec replayRec
 	if err := c.LoadReplay(&rec); err != nil {
@@ -1314,6 +1320,7 @@ func run(c *vf.Ctx) {
 	c.Require("reopens_after_return_to_earlier_committed_state", n/50)
 	c.Require("deferred_root_checks_after_reopen", n/50)
 	c.Require("max_trie_depth", 15)
+	realmsPart(c)
 	concPart(c)
 	c.Assume("the plain Go map model and SHA-256 are correct; mapdb is the store under ads (faults of the store are not injected here)")
 }
